@@ -273,6 +273,24 @@ func (tm *Termer) compute(v ssa.Value, d int) *Term {
 	case *ssa.MakeClosure:
 		return &Term{Op: "closure", Name: x.Fn.Name()}
 	case *ssa.Alloc:
+		// a local copy `t := xs[i]` whose address is taken: show what it holds
+		var only ssa.Value
+		nst := 0
+		if x.Referrers() != nil {
+			for _, ref := range *x.Referrers() {
+				if st, ok := ref.(*ssa.Store); ok && st.Addr == x {
+					nst++
+					only = st.Val
+				}
+			}
+		}
+		if nst == 1 {
+			if _, isStruct := deref(x.Type()).Underlying().(*types.Struct); isStruct {
+				if _, isAlloc := only.(*ssa.Alloc); !isAlloc {
+					return &Term{Op: "un", Name: "&", Args: []*Term{tm.of(only, d+1)}}
+				}
+			}
+		}
 		return &Term{Op: "new", Name: typeShort(deref(x.Type()))}
 	case *ssa.MakeSlice:
 		return &Term{Op: "make", Name: typeShort(x.Type()), Args: []*Term{tm.of(x.Len, d+1)}}
